@@ -13,7 +13,7 @@
    object is left at count 0 without being freed.  [touches e]: e dereferences its key (retain, release, free, use,
    close).  [count_key w o k tr] / [count_op w o tr]: number of events of kind o on key k / on any key of store w. *)
 From Coq Require Import List NArith.
-From Mimium Require Import Heap.Model Heap.SlotMap Heap.Lemmas Heap.Monitor Heap.Witness Heap.WitnessUaf.
+From Mimium Require Import Heap.Model Heap.SlotMap Heap.Lemmas Heap.Monitor Heap.Closure Heap.Witness Heap.WitnessUaf.
 Import ListNotations.
 Local Open Scope N_scope.
 
@@ -74,6 +74,25 @@ Theorem C12_steady_state_partial :
     /\ live_count mi w = live_count m0 w.
 Proof. exact steady_state. Qed.
 
+(* The closure layer of vm.rs is covered by the same monitor: for drop_closure (recursive release of the captured
+   closures, removal at count 0), release_heap_closure(s), release_open_closures, close_upvalues_by_idx,
+   CloseHeapClosure, CloneHeap, BoxClone and BoxRelease, from ANY machine state and for ANY contents of the upvalue
+   cells [up]: whenever the operation completes and the monitor accepts the H2 events it emitted, the monitor ends in
+   exactly the state the operation produced.  (checks/C12.py compares these emitted events, one by one, with the
+   events of the real VM at every operation mark of its log.) *)
+Theorem C12_closure_ops_replay :
+  forall (fuel : nat) (up : upvalue_oracle) (m : mach),
+  (forall id m' evs m'', drop_closure fuel up m id = Ok (m', evs) -> mrun m evs = Some m'' -> m'' = m')
+  /\ (forall hk m' evs m'', release_heap_closure fuel up m hk = Ok (m', evs) -> mrun m evs = Some m'' -> m'' = m')
+  /\ (forall hs m' evs m'', release_heap_closures fuel up m hs = Ok (m', evs) -> mrun m evs = Some m'' -> m'' = m')
+  /\ (forall cs m' evs m'', release_open_closures fuel up m cs = Ok (m', evs) -> mrun m evs = Some m'' -> m'' = m')
+  /\ (forall c m' evs m'', close_upvalues_by_idx up m c = Ok (m', evs) -> mrun m evs = Some m'' -> m'' = m')
+  /\ (forall raw m' evs m'', close_heap_closure up m raw = Ok (m', evs) -> mrun m evs = Some m'' -> m'' = m')
+  /\ (forall raw m' evs m'', clone_heap m raw = (m', evs) -> mrun m evs = Some m'' -> m'' = m')
+  /\ (forall raw m' evs m'', box_clone m raw = (m', evs) -> mrun m evs = Some m'' -> m'' = m')
+  /\ (forall raw m' evs m'', box_release m raw = (m', evs) -> mrun m evs = Some m'' -> m'' = m').
+Proof. exact closure_ops_replay. Qed.
+
 (* REFUTED on the current tree: being balanced (no use after release) does not bound the live objects of compiled
    programs.  [witness_trace] is the real VM's H2 log of `fn dsp(){ let x = 9.0  let f = | | { x - 5.0 }  f() }`
    (global initialisation + 3 samples, checked against the real VM on every run): it is accepted by the monitor, its
@@ -111,12 +130,15 @@ Example C12_balanced_example :
             mkEv SH EAlloc (mkKey 1 3) (Some 1)] = true.
 Proof. vm_compute. reflexivity. Qed.
 
-(* ... and the monitor rejects a use after release, a double release and a free of a referenced object *)
+(* ... and the monitor rejects a use after release, a double release, a free of a referenced object and the lookup
+   of a dangling handle *)
 Example C12_monitor_rejects :
   balanced [mkEv SH EAlloc (mkKey 1 1) (Some 1); mkEv SH ERelease (mkKey 1 1) (Some 0);
             mkEv SH EFree (mkKey 1 1) (Some 0); mkEv SH EUse (mkKey 1 1) None] = false
   /\ balanced [mkEv SC EAlloc (mkKey 1 1) (Some 1); mkEv SC ERelease (mkKey 1 1) (Some 0);
                mkEv SC ERelease (mkKey 1 1) None] = false
   /\ balanced [mkEv SH EAlloc (mkKey 1 1) (Some 1); mkEv SH ERetain (mkKey 1 1) (Some 2);
-               mkEv SH ERelease (mkKey 1 1) (Some 1); mkEv SH EFree (mkKey 1 1) (Some 0)] = false.
+               mkEv SH ERelease (mkKey 1 1) (Some 1); mkEv SH EFree (mkKey 1 1) (Some 0)] = false
+  /\ balanced [mkEv SH EAlloc (mkKey 1 1) (Some 1); mkEv SH ERelease (mkKey 1 1) (Some 0);
+               mkEv SH EFree (mkKey 1 1) (Some 0); mkEv SH EProbe (mkKey 1 1) None] = false.
 Proof. vm_compute. repeat split; reflexivity. Qed.
